@@ -5,10 +5,12 @@ import (
 	"flag"
 	"fmt"
 	"os"
+	"os/signal"
 	"path/filepath"
 	"sort"
 	"strconv"
 	"strings"
+	"syscall"
 	"time"
 )
 
@@ -71,6 +73,23 @@ func main() {
 }
 
 var profForks bool
+var stopAfterViol int
+var curExec *Exec
+
+func init() {
+	// a time limit enforced by the driver arrives as SIGTERM: stop exploring, report what was found
+	ch := make(chan os.Signal, 1)
+	signal.Notify(ch, syscall.SIGTERM, syscall.SIGINT)
+	go func() {
+		<-ch
+		if e := curExec; e != nil {
+			e.stopped = true
+			e.interrupted = true
+		}
+		<-ch
+		os.Exit(3)
+	}()
+}
 
 type kvFlag map[string]int64
 
@@ -109,6 +128,7 @@ func cmdRun(args []string) int {
 	seed := fs.Int("seed", 0, "solver random seed")
 	qto := fs.Int("qtimeout", 20000, "per-query timeout in ms")
 	maxPaths := fs.Int("maxpaths", 2000000, "stop after this many paths (reported as incomplete)")
+	maxViol := fs.Int("maxviol", 0, "stop after this many distinct violations (0: explore everything)")
 	forkProf := fs.Bool("forkprof", false, "print fork sites")
 	fatalViol := fs.Bool("fatal-is-violation", false, "log.Fatal/os.Exit reachable counts as a violation")
 	params := kvFlag{}
@@ -138,6 +158,7 @@ func cmdRun(args []string) int {
 		}
 		for _, name := range strings.Split(*entry, ",") {
 			profForks = *forkProf
+			stopAfterViol = *maxViol
 			r := runEntry(ld, name, hd, *pkg, *unwind, *z3, *seed, *qto, log, *trace, *split, params, *known, *maxPaths, *fatalViol)
 			r.LoadSecs = loadT.Seconds()
 			results = append(results, r)
@@ -189,6 +210,8 @@ func runEntry(ld *Loaded, name, hd, pkg string, unwind int, z3 string, seed, qto
 	ex.splitIdx = split
 	ex.maxPaths = maxPaths
 	ex.fatalIsViolation = fatalViol
+	ex.stopAfterViol = stopAfterViol
+	curExec = ex
 	for k, v := range params {
 		ex.params[k] = v
 	}
